@@ -6,6 +6,7 @@ require (
 	github.com/moby/patternmatcher v0.5.0
 	github.com/opencontainers/go-digest v1.0.0
 	github.com/pkg/errors v0.9.1
+	github.com/tonistiigi/dchapes-mode v0.0.0-20250318174251-73d941a28323
 	github.com/tonistiigi/fsutil v0.0.0
 	golang.org/x/sys v0.11.0
 	google.golang.org/protobuf v1.31.0
@@ -15,7 +16,10 @@ require (
 	github.com/containerd/continuity v0.4.1 // indirect
 	github.com/planetscale/vtprotobuf v0.6.0 // indirect
 	github.com/sirupsen/logrus v1.8.1 // indirect
+<<<<<<< HEAD
 	github.com/tonistiigi/dchapes-mode v0.0.0-20250318174251-73d941a28323 // indirect
+=======
+>>>>>>> wip-c13
 	golang.org/x/sync v0.1.0 // indirect
 )
 
